@@ -214,8 +214,9 @@ def run_one(version, flavour, policy, stream, cuts, proto_kind="base"):
             "lines": [d for (_o, d) in eng.logic_in]}
 
 
-def run_reconnect(version, flavour, stream, cut):
-    """The link fails after `cut` bytes and is re-established; the rest arrives on the new connection."""
+def run_reconnect(version, flavour, stream, cut, proto_kind="base", how="error"):
+    """The link ends after `cut` bytes (how: 'error' = failure, 'eof' = orderly close by the peer, 'closed' = closed without
+    an error) and is re-established; the rest arrives on the new connection."""
     from mysensors.transport import AsyncMySensorsProtocol, BaseMySensorsProtocol
     from ..drive import Engine, PumpDied, projection
 
@@ -231,7 +232,12 @@ def run_reconnect(version, flavour, stream, cut):
             self.open = False
 
     eng = Engine(flavour, version)
-    P = BaseMySensorsProtocol if flavour == "sync" else AsyncMySensorsProtocol
+    if proto_kind == "tcp":
+        from mysensors.gateway_tcp import AsyncTCPMySensorsProtocol as P
+        eng.gw.cancel_check_conn = None
+        eng.gw.server_address = ("10.0.0.1", 5003)
+    else:
+        P = BaseMySensorsProtocol if flavour == "sync" else AsyncMySensorsProtocol
     proto = P(eng.gw, lambda: None)
     orig = proto.handle_line
 
@@ -245,7 +251,12 @@ def run_reconnect(version, flavour, stream, cut):
         proto.connection_made(Conn())
         eng.step += 1
         proto.data_received(stream[:cut])
-        proto.connection_lost(OSError("link failure"))
+        if how == "error":
+            proto.connection_lost(OSError("link failure"))
+        else:
+            if how == "eof" and hasattr(proto, "eof_received"):
+                proto.eof_received()
+            proto.connection_lost(None)
         proto.connection_made(Conn())
         eng.step += 1
         proto.data_received(stream[cut:])
@@ -335,11 +346,12 @@ def run(job):
         for c in sorted(set([1, len(stream) // 3, len(stream) // 2, len(stream) - 1] + [rng.randrange(1, len(stream)) for _ in range(6)])):
             if not 0 < c < len(stream):
                 continue
-            a = run_reconnect(version, "async", stream, c)
             b = run_reconnect(version, "sync", stream, c)
-            compare(res, a, b, "flavours-across-reconnect", {"version": version, "stream_hex": stream.hex(), "cuts": [c], "seg": "reconnect", "run": "reconnect"}, False)
-            res.evals += 1
-            res.count("reconnect_comparisons")
+            for (pk, how) in (("base", "error"), ("tcp", "error"), ("tcp", "eof"), ("base", "closed")):
+                a = run_reconnect(version, "async", stream, c, pk, how)
+                compare(res, a, b, f"flavours-across-reconnect:{pk}:{how}", {"version": version, "stream_hex": stream.hex(), "cuts": [c], "seg": "reconnect", "run": "reconnect", "proto": pk, "how": how}, False)
+                res.evals += 1
+                res.count("reconnect_comparisons")
         if FOREIGN:
             n, head = FOREIGN[0]
             res.violation("fresh-protocol-holds-bytes-of-an-earlier-connection",
@@ -367,7 +379,8 @@ def replay(case):
         return res
     if r == "reconnect":
         c = case["cuts"][0]
-        compare(res, run_reconnect(version, "async", stream, c), run_reconnect(version, "sync", stream, c), "flavours-across-reconnect", case, False)
+        compare(res, run_reconnect(version, "async", stream, c, case.get("proto", "base"), case.get("how", "error")), run_reconnect(version, "sync", stream, c),
+                f"flavours-across-reconnect:{case.get('proto', 'base')}:{case.get('how', 'error')}", case, False)
         return res
     if r == "async":
         compare(res, ref, run_one(version, "async", "chunk", stream, cuts), "async-segmentation", case, False)
